@@ -15,13 +15,49 @@ open Goml.Dce (keys lookup_cons_self lookup_cons_ne lookup_none_of_not_key key_o
 
 attribute [local irreducible] Goml.GoCompile.vn Goml.GoCompile.gid Goml.GoCompile.rn
 
-theorem armDecls_typeCases (env : Env) : ∀ ra : List (Imm × List GStmt), ndDeclsTCases (typeCases env ra) = armDecls ra
-  | [] => rfl
-  | (lhs, body) :: rest => by simp [typeCases, ndDeclsTCases, armDecls, armDecls_typeCases env rest]
+theorem sokT_typeCases {ok : String → Bool} (env : Env) (K : List String) : ∀ ra : List (Imm × List GStmt),
+    sokTCasesB ok K (typeCases env ra) = true ↔ ∀ p, p ∈ ra → sokB ok K p.2 = true
+  | [] => by simp [typeCases, sokTCasesB]
+  | (lhs, body) :: rest => by simp [typeCases, sokTCasesB, sokT_typeCases env K rest]
 
-theorem armDecls_valueCases (k : MatchKind) : ∀ ra : List (Imm × List GStmt), ndDeclsCases (valueCases k ra) = armDecls ra
-  | [] => rfl
-  | (lhs, body) :: rest => by simp [valueCases, ndDeclsCases, armDecls, armDecls_valueCases k rest]
+theorem sokC_valueCases {ok : String → Bool} (k : MatchKind) (K : List String) : ∀ ra : List (Imm × List GStmt),
+    sokCasesB ok K (valueCases k ra) = true ↔ ∀ p, p ∈ ra → sokB ok K p.2 = true
+  | [] => by simp [valueCases, sokCasesB]
+  | (lhs, body) :: rest => by simp [valueCases, sokCasesB, sokC_valueCases k K rest]
+
+/-- the clauses of a type switch in the block-scoped invariant -/
+theorem ginvA_of_tswitch {Bad : List String} {env : Env} {b : Option String} {e : GExpr} {ra : List (Imm × List GStmt)}
+    {rd : Option (List GStmt)} {gρ : GEnv} (h : GInv Bad [.tswitch b e (typeCases env ra) rd] gρ) : GInvA Bad ra rd gρ := by
+  have hs := h.sok
+  cases rd with
+  | none =>
+    simp only [sokB, sokStmtB, Bool.and_eq_true, Bool.and_true] at hs
+    exact ⟨fun p hp => ⟨(sokT_typeCases env _ ra).mp hs p hp, h.goodK⟩, trivial, h.goodK⟩
+  | some d =>
+    simp only [sokB, sokStmtB, Bool.and_eq_true, Bool.and_true] at hs
+    exact ⟨fun p hp => ⟨(sokT_typeCases env _ ra).mp hs.1 p hp, h.goodK⟩, ⟨hs.2, h.goodK⟩, h.goodK⟩
+
+theorem ginvA_of_switch {Bad : List String} {k : MatchKind} {e : GExpr} {ra : List (Imm × List GStmt)}
+    {rd : Option (List GStmt)} {gρ : GEnv} (h : GInv Bad [.switch e (valueCases k ra) rd] gρ) : GInvA Bad ra rd gρ := by
+  have hs := h.sok
+  cases rd with
+  | none =>
+    simp only [sokB, sokStmtB, Bool.and_eq_true, Bool.and_true] at hs
+    exact ⟨fun p hp => ⟨(sokC_valueCases k _ ra).mp hs p hp, h.goodK⟩, trivial, h.goodK⟩
+  | some d =>
+    simp only [sokB, sokStmtB, Bool.and_eq_true, Bool.and_true] at hs
+    exact ⟨fun p hp => ⟨(sokC_valueCases k _ ra).mp hs.1 p hp, h.goodK⟩, ⟨hs.2, h.goodK⟩, h.goodK⟩
+
+theorem GInvA.rebind {Bad ra rd gρ} (h : GInvA Bad ra rd gρ) {x : String} (hx : x ∈ keys gρ) (v : GVal) :
+    GInvA Bad ra rd ((x, v) :: gρ) := by
+  refine ⟨fun p hp => (h.arms p hp).rebind hx v, ?_, fun y hk => ?_⟩
+  · cases rd with
+    | none => trivial
+    | some d => exact GInv.rebind h.dflt hx v
+  · simp only [Goml.Dce.keys_cons, List.mem_cons] at hk
+    rcases hk with rfl | hk
+    · exact h.goodK _ hx
+    · exact h.goodK y hk
 
 theorem ConclSw.mono {env : Env} {η : Hp} {run run' : GRes (GEnv × Sig) → Prop} {m : Mode} {gρ : GEnv} {ty : Ty} {res : Res Val}
     (h : ConclSw env η run m gρ ty res) (hm : ∀ r, run r → run' r) : ConclSw env η run' m gρ ty res := by
@@ -105,8 +141,9 @@ theorem stepME {env : Env} {file : AFile} {G : List String} {P : Prog} {F : GFil
       simp only [fragD, Bool.and_eq_true] at hfd
       obtain ⟨hfe, hte⟩ := hfd
       have hte' := scalarEq_eq hte
-      simp only [compileArms, compileDflt, armDecls, optDecls, List.nil_append] at hinv
-      have hA := ha m st e η Γ K ρ w gρ gw Bad hfe hrel hkrel hw hinv (hte' ▸ htgt) hus hfc
+      have hinve : GInv Bad (compileA env m st e).1 gρ := by
+        have := hinv.dflt; simpa only [compileArms, compileDflt] using this
+      have hA := ha m st e η Γ K ρ w gρ gw Bad hfe hrel hkrel hw hinve (hte' ▸ htgt) hus hfc
         (fun c hc => hcal c (by simp [calleesArms, calleesD, hc]))
       rw [hte'] at hA
       exact conclSw_of_concl hA (fun r0 hn => tsw_nil_some hn)
@@ -133,15 +170,11 @@ theorem stepME {env : Env} {file : AFile} {G : List String} {P : Prog} {F : GFil
       simp only [Sem.armMatches]
       generalize hSb : compileA env m st body = rb at *
       have hinvb : GInv Bad rb.1 gρ := by
-        refine hinv.sub ?_
-        rw [compileArms_cons, hSb]
-        simp only [armDecls, List.append_assoc]
-        exact List.sublist_append_left _ _
-      have hinvr : GInvN Bad (armDecls (compileArms env m rb.2 rest).1 ++ optDecls (compileDflt env m (compileArms env m rb.2 rest).2 d).1) gρ := by
-        refine hinv.sub ?_
-        rw [compileArms_cons, hSb]
-        simp only [armDecls, List.append_assoc]
-        exact List.sublist_append_right _ _
+        have := hinv.arms (.tag idx (.enum en), rb.1) (by rw [compileArms_cons, hSb]; exact List.mem_cons_self)
+        exact this
+      have hinvr : GInvA Bad (compileArms env m rb.2 rest).1 (compileDflt env m (compileArms env m rb.2 rest).2 d).1 gρ := by
+        refine ⟨fun p hp => hinv.arms p (by rw [compileArms_cons, hSb]; exact List.mem_cons_of_mem _ hp), ?_, hinv.goodK⟩
+        have := hinv.dflt; rw [compileArms_cons, hSb] at this; exact this
       by_cases hidx : idx = i
       · subst hidx
         simp only [beq_self_eq_true, if_true]
@@ -212,8 +245,9 @@ theorem stepMV {env : Env} {file : AFile} {G : List String} {P : Prog} {F : GFil
       simp only [fragD, Bool.and_eq_true] at hfd
       obtain ⟨hfe, hte⟩ := hfd
       have hte' := scalarEq_eq hte
-      simp only [compileArms, compileDflt, armDecls, optDecls, List.nil_append] at hinv
-      have hA := ha m st e η Γ K ρ w gρ gw Bad hfe hrel hkrel hw hinv (hte' ▸ htgt) hus hfc
+      have hinve : GInv Bad (compileA env m st e).1 gρ := by
+        have := hinv.dflt; simpa only [compileArms, compileDflt] using this
+      have hA := ha m st e η Γ K ρ w gρ gw Bad hfe hrel hkrel hw hinve (hte' ▸ htgt) hus hfc
         (fun c hc => hcal c (by simp [calleesArms, calleesD, hc]))
       rw [hte'] at hA
       exact conclSw_of_concl hA (fun r0 hn => sw_nil_some hn)
@@ -233,15 +267,11 @@ theorem stepMV {env : Env} {file : AFile} {G : List String} {P : Prog} {F : GFil
       simp only [Sem.armMatches]
       generalize hSb : compileA env m st body = rb at *
       have hinvb : GInv Bad rb.1 gρ := by
-        refine hinv.sub ?_
-        rw [compileArms_cons, hSb]
-        simp only [armDecls, List.append_assoc]
-        exact List.sublist_append_left _ _
-      have hinvr : GInvN Bad (armDecls (compileArms env m rb.2 rest).1 ++ optDecls (compileDflt env m (compileArms env m rb.2 rest).2 d).1) gρ := by
-        refine hinv.sub ?_
-        rw [compileArms_cons, hSb]
-        simp only [armDecls, List.append_assoc]
-        exact List.sublist_append_right _ _
+        have := hinv.arms (.prim p pty, rb.1) (by rw [compileArms_cons, hSb]; exact List.mem_cons_self)
+        exact this
+      have hinvr : GInvA Bad (compileArms env m rb.2 rest).1 (compileDflt env m (compileArms env m rb.2 rest).2 d).1 gρ := by
+        refine ⟨fun p hp => hinv.arms p (by rw [compileArms_cons, hSb]; exact List.mem_cons_of_mem _ hp), ?_, hinv.goodK⟩
+        have := hinv.dflt; rw [compileArms_cons, hSb] at this; exact this
       -- the label evaluates to the Go image of the literal
       have hlit : immOK env file G Γ (.prim p pty) = true := hp
       obtain ⟨lv, glv, hsl, hgl, h3l, h4l⟩ := imm_both P hl.ty hlit hrel (hfc.rel hinv.goodK)
